@@ -67,6 +67,10 @@ class Impl:
             rt.mk(self.root, {p: data_bytes(d)}, mtime=sc.get("mtime", 1760000000))
         self.iifile = os.path.join(base, "_ii.txt")
         self.flat_n = 0
+        try:
+            os.symlink(".", os.path.join(base, "_lnk"))  # for the "symlink" spelling of root paths
+        except OSError:
+            pass
 
     def P(self, rel):
         return os.path.join(self.root, rel) if rel else self.root
@@ -185,6 +189,15 @@ class Impl:
             cwd = at
             at = "."
         absat = self.P(op.get("at", ""))
+        sfbase = absat
+        if sp == "symlink":
+            # the root is reached through a symbolic link in one of its ancestors (a linked volume folder); the
+            # -sf paths are spelled through the same link
+            link = os.path.join(self.base, "_lnk")
+            if not os.path.islink(link):
+                os.symlink(".", link)
+            at = os.path.join(link, os.path.relpath(at, self.base))
+            sfbase = at
         before = self.manifests()
         asc_before = self.asc_snapshot()
         media_before = self.media_snapshot()
@@ -198,7 +211,7 @@ class Impl:
                 args.append("-dr")
             raws = op.get("sf_raw") or op.get("sf", [])
             for s in raws:
-                args += ["-sf", os.path.join(absat, s) if s else absat]
+                args += ["-sf", os.path.join(sfbase, s) if s else sfbase]
             for i in op.get("i", []):
                 args += ["-i", i]
             if op.get("ii"):
@@ -210,7 +223,7 @@ class Impl:
         elif k == "verify":
             args = [at]
             if op.get("sf") is not None:
-                args += ["-sf", os.path.join(absat, op.get("sf_raw") or op["sf"])]
+                args += ["-sf", os.path.join(sfbase, op.get("sf_raw") or op["sf"])]
             for i in op.get("i", []):
                 args += ["-i", i]
             if op.get("ii"):
@@ -239,9 +252,9 @@ class Impl:
                 return None
             if op.get("auto_root"):
                 # no ROOT_PATH: the tool searches upwards for the nearest ascmhl folder
-                r = rt.run("info", ["-sf", os.path.join(absat, op["file"])], now, cwd)
+                r = rt.run("info", ["-sf", os.path.join(sfbase, op["file"])], now, cwd)
             else:
-                r = rt.run("info", [at, "-sf", os.path.join(absat, op["file"])], now, cwd)
+                r = rt.run("info", [at, "-sf", os.path.join(sfbase, op["file"])], now, cwd)
         elif k == "verifypl":
             pl = getattr(self, "last_pl", None)
             if pl is None:
@@ -277,7 +290,11 @@ class Impl:
             newf = [f for f in files if f not in before.get(a, []) and f.endswith(".mhl")]
             for f in newf:
                 hist = os.path.relpath(os.path.dirname(os.path.join(self.root, a)), absat)
-                m = rt.read_manifest(os.path.join(self.root, a, f))
+                try:
+                    m = rt.read_manifest(os.path.join(self.root, a, f))
+                except Exception as e:  # not well-formed: reported by the pool as a failure of the run
+                    obs.setdefault("unparsable", []).append({"file": os.path.join(a, f), "error": repr(e)[:200]})
+                    continue
                 written.append({"hist": hist, "gen": m, "file": f})
         obs["written"] = sorted(written, key=lambda w: (w["hist"], w["file"]))
         if k == "flatten" and os.path.isdir(op["_dest"]):
